@@ -5,7 +5,7 @@
     [mut_check] itself (every child pair is checked by the same function). *)
 From Coq Require Import String.
 From Coq Require Import List ZArith NArith Bool.
-From Cambrian Require Import Base.F64 SourceFacts Syntax Ops OpsProofs.
+From Cambrian Require Import Base.F64 SourceFacts Syntax Ops OpsProofs MutProofs CrossProofs MutLocal.
 Import ListNotations.
 
 (** regenerated from src/mutation.rs: the keys of the map in hand are registered with the key
@@ -28,6 +28,16 @@ Proof.
   - eapply p0_int; eauto.
 Qed.
 Print Assumptions mutate_p0_leaves_unchanged.
+
+(** whole tree: with probability 0 the output has exactly the leaves of the (conforming) input,
+    at every path — member names, indices, map keys, variant options, optionals — in both
+    directions: nothing changed, nothing added, nothing removed, at any depth *)
+Theorem mutate_p0_is_identity :
+  forall s ms p c v v' c',
+    wf s = true -> conforms_g false s v = true -> mut_check fzero ms s p c v v' = Some c' ->
+    forall q lf, is_leaf_value lf = true -> (leaf_at v' q = Some lf <-> leaf_at v q = Some lf).
+Proof. intros s ms p c v v' c' W C H. exact (mutate_p0_identity s ms p c v v' c' W C H). Qed.
+Print Assumptions mutate_p0_is_identity.
 
 Theorem resize_changes_one_key :
   forall mp ms vt isz mn mx p c c' m m',
